@@ -412,7 +412,7 @@ def build_inputs(entry, dtype, layout, backend, seed=0, h=H, w=W):
 def catalog_meta():
     """Pure-python view for the drivers: {name: {"nvariants": n, "backends": [...], "nin": k}}"""
     C, _ = catalog()
-    return {k: {"nvariants": len(v["variants"]), "variants": v["variants"], "variant_backends": v.get("variant_backends", {}),
+    return {k: {"mod": v["mod"], "nvariants": len(v["variants"]), "variants": v["variants"], "variant_backends": v.get("variant_backends", {}),
                 "backends": (v.get("only") or {}).get("backend", BACKENDS), "nin": len(v["ins"])}
             for k, v in C.items()}
 
